@@ -368,19 +368,27 @@ def election_scenario(rng, with_fork=True, bpcount_change=True):
     return {"election": True, "n": n, "nodes": 1, "self": [rng.randrange(0, n)], "ops": ops}
 
 
-def election_boundary_reorg(rng):
-    """Reorganisation that rolls back across an election boundary at which the producer count
-    changes, and ends a few blocks after it: the rebuilt and the new confirms elements carry the
-    confirmsRequired of the producer set in force on the new branch at their height."""
+def election_boundary_reorg(rng, boundary=None):
+    """Reorganisation that rolls back across an election boundary at which the producer set and
+    its size change, and ends a few blocks after it: the rebuilt and the new confirms elements
+    carry the confirmsRequired of the producer set in force on the new branch at their height, and
+    the proposal map is filtered by the producer set of the fork point."""
     n = 3
-    ops = [["T", 1, [0, 1, 2, 3, 4, 5], 3], ["T", 2, [5, 4, 3, 2, 1, 0], 5], ["T", 3, [2, 3, 4, 5, 0, 1], 5]]
+    A = [5, 4, 3, 2, 1]          # snapshot at 200 (BPCOUNT 5): in force for 301..400
+    Bs = [1, 3, 5, 0]            # snapshot at 300 (BPCOUNT 4): in force from 401
+    ops = [["T", 1, [0, 1, 2, 3, 4, 5], 3], ["T", 2, [5, 4, 3, 2, 1, 0], 5], ["T", 4, [1, 3, 5, 0, 2, 4], 4],
+           ["T", 3, [2, 3, 4, 5, 0, 1], 4]]
     blocks = {0: (None, 0)}
     lpb = {}
     nid = [1]
 
-    def mk(parent, prods, sid):
+    def prods(no):
+        return [0, 1, 2] if no <= 300 else (A if no <= 400 else Bs)
+
+    def mk(parent, sid):
         no = blocks[parent][1] + 1
-        bp = rng.choice(prods)
+        ps = prods(no)
+        bp = ps[no % len(ps)]          # round robin: the LIB lags by a known distance
         i = nid[0]
         nid[0] += 1
         blocks[i] = (parent, no)
@@ -388,35 +396,31 @@ def election_boundary_reorg(rng):
         lpb[bp] = no
         ops.append(["D", 0, i])
         return i
-    boundary = rng.choice([300, 400])
+    if boundary is None:
+        boundary = rng.choice([300, 400])
     tip = 0
     chain = [0]
     change = rng.randrange(20, 180)
-    old_len = boundary + rng.randrange(1, 6)
+    old_len = boundary + rng.randrange(1, 3)
     for k in range(1, old_len + 1):
-        sid = 1 if k < change else 2
-        if k <= 300:
-            prods = [0, 1, 2]
-        else:
-            prods = [5, 4, 3, 2, 1]
-        tip = mk(tip, prods, sid)
+        sid = 1 if k < change else (2 if k < 250 else 4)
+        tip = mk(tip, sid)
         chain.append(tip)
     ops.append(["S", 0])
-    root = chain[boundary - rng.randrange(1, 6)]
+    root = chain[boundary - rng.randrange(1, 3)]
     t2 = root
-    while blocks[t2][1] < old_len + rng.randrange(1, 4):
-        no = blocks[t2][1] + 1
-        prods = [0, 1, 2] if no <= 300 else [5, 4, 3, 2, 1]
-        t2 = mk(t2, prods, 3)
+    target = old_len + rng.randrange(1, 4)
+    while blocks[t2][1] < target:
+        t2 = mk(t2, 3)
     ops.append(["S", 0])
     for _ in range(3):
-        t2 = mk(t2, [5, 4, 3, 2, 1], 3)
+        t2 = mk(t2, 3)
     return {"election": True, "n": n, "nodes": 1, "self": [0], "ops": ops}
 
 
 def generate_election(rng, quick):
     out = [election_scenario(rng, with_fork=False, bpcount_change=False), election_scenario(rng), election_scenario(rng),
-           election_boundary_reorg(rng)]
+           election_boundary_reorg(rng, 300), election_boundary_reorg(rng, 400)]
     if not quick:
         out += [election_scenario(rng) for _ in range(20)] + [election_boundary_reorg(rng) for _ in range(10)]
     return out
